@@ -23,22 +23,42 @@ def chain(nxt, name):
     return nxt
 
 
-def run_la_impl(hist):
-    """-> (number of calls accepted before the first rejection, error family or None, {layer: [identifiers]} in order)"""
+StrMember = rules.StrMember
+
+
+def mapping_listing(a):
+    """the definition read through architecture[layer] for every layer its text names; module names by their string VALUE"""
+    out = []
+    for layer, _ in parse_arch_str(str(a)):
+        names = []
+        for f in a[layer]:
+            ident = getattr(f, "identifier", None)
+            if not isinstance(ident, str):
+                raise rules.HarnessError("module filter without a string identifier: the harness cannot read the definition")
+            names.append(str.__str__(ident))
+        out.append((layer, names))
+    return out
+
+
+def run_la_impl(hist, member_names=False):
+    """-> (number of calls accepted before the first rejection, error family or None, {layer: [identifiers]} in order)
+    member_names: module names and patterns are passed as StrMember objects (equal to, and hashing like, the plain strings)
+    and the definition is read through the mapping instead of its text"""
     LA, _ = impl()
     a = LA()
     k = 0
     fam = None
+    w = StrMember if member_names else (lambda x: x)
     for c in hist:
         try:
             if c[0] == "layer":
                 a = chain(a.layer(c[1]), "layer")
             elif c[0] == "str":
-                a = chain(a.containing_modules(c[1]), "containing_modules")
+                a = chain(a.containing_modules(w(c[1])), "containing_modules")
             elif c[0] == "list":
-                a = chain(a.containing_modules(list(c[1])), "containing_modules")
+                a = chain(a.containing_modules([w(x) for x in c[1]]), "containing_modules")
             elif c[0] == "regex":
-                a = chain(a.have_modules_with_names_matching(c[1]), "have_modules_with_names_matching")
+                a = chain(a.have_modules_with_names_matching(w(c[1])), "have_modules_with_names_matching")
             elif c[0] == "peek":
                 # someone looks at the architecture while it is being defined: a LayerRule is based on it, its
                 # mapping and text are read.  Observation only: the definition must go on exactly as without it.
@@ -55,7 +75,7 @@ def run_la_impl(hist):
             fam = rules.classify_exception(e)
             break
         k += 1
-    return k, fam, parse_arch_str(str(a)), a
+    return k, fam, (mapping_listing(a) if member_names else parse_arch_str(str(a))), a
 
 
 def run_la_impl_lenient(hist):
